@@ -25,7 +25,6 @@ import (
 
 	sigkeeper "github.com/chain4energy/c4e-chain/x/cfesignature/keeper"
 	sigtypes "github.com/chain4energy/c4e-chain/x/cfesignature/types"
-	"github.com/cosmos/cosmos-sdk/store/prefix"
 	sdk "github.com/cosmos/cosmos-sdk/types"
 )
 
@@ -330,20 +329,30 @@ func runSigCase(ta *TestApp, seed uint64, idx int, rep *Report, profile string) 
 		}
 		rep.Ops++
 	}
-	// raw store values of the payload links
+	// the links as the keeper itself reads them back (no dependence on store prefixes)
 	var finals []string
-	st := prefix.NewStore(ctx.KVStore(app.GetKey(sigtypes.StoreKey)), []byte(sigtypes.PayloadLinkKey))
-	it := st.Iterator(nil, nil)
 	n := 0
-	for ; it.Valid(); it.Next() {
-		key, val := string(it.Key()), string(it.Value())
-		finals = append(finals, zPair(coqStr(key), coqStr(val)))
-		mine, ok := myLinks[key]
-		rep.Eval("C15.raw_link_is_first_published_value", ok && mine == val, idx, -1, fmt.Sprintf("store holds %q at %s, first published %q", val, key, mine))
-		n++
+	for _, ref := range refs {
+		key := hashHex(ref)
+		mine, published := myLinks[key]
+		var val string
+		var err error
+		func() {
+			defer func() {
+				if r := recover(); r != nil {
+					err = fmt.Errorf("panic: %v", r)
+				}
+			}()
+			val, err = k.GetPayloadLink(ctx, ref)
+		}()
+		if err == nil {
+			n++
+			finals = append(finals, zPair(coqStr(key), coqStr(val)))
+			rep.Eval("C15.raw_link_is_first_published_value", published && mine == val, idx, -1, fmt.Sprintf("registry holds %q at %s, first published %q", val, key, mine))
+		} else {
+			rep.Eval("C15.no_link_removed", !published, idx, -1, fmt.Sprintf("link published under %s (%q) can no longer be read: %v", key, mine, err))
+		}
 	}
-	it.Close()
-	rep.Eval("C15.no_link_removed", n == len(myLinks), idx, -1, fmt.Sprintf("store holds %d links, %d were published", n, len(myLinks)))
 	var hs, xs []string
 	for s, h := range hashes {
 		hs = append(hs, zPair(coqStr(s), coqStr(h)))
